@@ -263,7 +263,14 @@ pub struct Model {
 pub fn gen_model(r: &mut Rng) -> Model {
     let n_sig = r.below(4) as usize;
     let n_cod = r.below(4) as usize;
-    let sig_ids: Vec<String> = (0..n_sig).map(|i| format!("SIG_{}", i)).collect();
+    let mut sig_ids: Vec<String> = (0..n_sig).map(|i| format!("SIG_{}", i)).collect();
+    // a catalogue that also lists SIGNAL elements under standard names (the built-in meaning of
+    // a standard name must win over such an entry)
+    if r.chance(1, 3) {
+        for _ in 0..r.range(1, 3) {
+            sig_ids.push(r.pick(SIGNAL_NAMES).to_string());
+        }
+    }
     let cod_ids: Vec<String> = (0..n_cod).map(|i| format!("COD_{}", i)).collect();
     let mut elems: Vec<Elem> = vec![];
     for id in &sig_ids {
